@@ -109,7 +109,7 @@ func (s *session) delete() error {
 	if err != nil {
 		return err
 	}
-	verifYield("session.delete.listed")
+	verifYield("session.delete.listed", LeaderController(s.sm.leaderController))
 	// Delete ephemerals
 	var deletes []*proto.DeleteRequest
 	s.log.Debug(
